@@ -113,13 +113,29 @@ def write_trace(path, events, extra=None):
         json.dump(d, fh)
 
 
+def _scratch_dir_with_distinct_job_ids(names):
+    """The analyzer derives a 4-digit job id from crc32(path) % 10000; two input files of ONE run whose
+    ids collide share one registry slot (observation recorded in DESIGN.md; hypothesis KeysInjective
+    of C20).  Generated scenarios stay inside that assumption: pick a scratch directory in which the
+    ids of the input files are pairwise distinct and differ from the 'top_level_multifile' pseudo job."""
+    import zlib
+    top = zlib.crc32(b"top_level_multifile") % 10000
+    for _ in range(50):
+        tmp = tempfile.mkdtemp(prefix="aiuverif_")
+        ids = [zlib.crc32(os.path.join(tmp, n).encode()) % 10000 for n in names]
+        if len(set(ids)) == len(ids) and top not in ids:
+            return tmp
+        shutil.rmtree(tmp, ignore_errors=True)
+    return tempfile.mkdtemp(prefix="aiuverif_")
+
+
 def e2e(argv_tail, files: dict[str, list[dict]], want_files=(), keep_dir=False):
     """Run the real Acelyzer API in-process.  `files`: name -> list of input events (written as
     {"traceEvents": [...]}).  Returns dict(rc, error, events, other, outdir-files requested)."""
     import aiu_trace_analyzer.logger as aiulog
     from aiu_trace_analyzer.core.acelyzer import Acelyzer
 
-    tmp = tempfile.mkdtemp(prefix="aiuverif_")
+    tmp = _scratch_dir_with_distinct_job_ids(list(files))
     res = {"rc": None, "error": None, "events": None, "files": {}}
     try:
         paths = []
